@@ -92,8 +92,19 @@ class RspHandler:
         crc2 = int(pkt[-2:], 16)
         if crc != crc2:
             raise ValueError(f"Checksum {crc} != {crc2}")
-        pkt = pkt[1:-3]
-        return pkt
+        data = []
+        escaped = False
+        for c in pkt[1:-3]:
+            if escaped:
+                data.append(chr(ord(c) ^ 0x20))
+                escaped = False
+            elif c == "}":
+                escaped = True
+            else:
+                data.append(c)
+        if escaped:
+            raise ValueError(f"bad escape in packet {pkt}")
+        return "".join(data)
 
 
 def decoder():
@@ -117,7 +128,7 @@ def decoder():
             while True:
                 byte = yield
                 res.extend(byte)
-                if res[-1] == ord("#") and res[-2] != ord("'"):
+                if res[-1] == ord("#"):
                     byte = yield
                     res.extend(byte)
                     byte = yield
